@@ -98,6 +98,10 @@ MUTATIONS = [
  ('m73', 'C18', 'src/sampler.rs', r's/let switch_draw = \(self\.trajectory_switch_fraction \* self\.num_tune as f64\) as u64;\n        let rng = ChaCha8Rng::try_from_rng\(rng\)\.expect\("Could not seed rng"\);\n        let stats_options = self\.stats_options::<M>\(\);\n        MclmcChain::new\(\n            math,\n            hamiltonian,\n            strategy,/let switch_draw = (self.trajectory_switch_fraction \/ self.num_tune as f64) as u64;\n        let rng = ChaCha8Rng::try_from_rng(rng).expect("Could not seed rng");\n        let stats_options = self.stats_options::<M>();\n        MclmcChain::new(\n            math,\n            hamiltonian,\n            strategy,/', 'an MCLMC preset computes the switch draw as fraction \/ num_tune (mutation campaign)'),
  ('m74', 'C08', 'src/transform/low_rank.rs', r's/        self\.logdet = self\.diag\.logdet\(\);\n        self\.id \+= 1;/        self.logdet = self.diag.logdet();\n        self.id += 0;/', 'update_from_grad does not bump the id (mutation campaign)'),
  ('m75', 'C08', 'src/transform/diagonal.rs', r's/        math\.copy_into\(draw_mean, &mut self\.mean\);\n        self\.logdet = math\.array_sum_ln\(&self\.inv_stds\);\n        self\.id \+= 1;/        math.copy_into(draw_mean, \&mut self.mean);\n        self.logdet = math.array_sum_ln(\&self.inv_stds);\n        self.id -= 1;/', 'update_diag_draw counts the id down (mutation campaign)'),
+ ('m76', 'C08', 'src/math/cpu_math.rs', r's/                \} else \{\n                    let val = val\.clamp\(clamp\.0, clamp\.1\);\n                    \*std_out = val\.sqrt\(\);\n                    \*inv_std_out = val\.recip\(\)\.sqrt\(\);\n                \}\n            \}\);\n        \}\);\n    \}\n\n    fn array_update_var_inv_std_grad/                } else {\n                    let val = val.clamp(clamp.1, clamp.1);\n                    *std_out = val.sqrt();\n                    *inv_std_out = val.recip().sqrt();\n                }\n            });\n        });\n    }\n\n    fn array_update_var_inv_std_grad/', 'draw-grad scale kernel clamps to the upper bound only (mutation campaign)'),
+ ('m77', 'C02', 'src/dynamics/transformed_hamiltonian.rs', r's/            if self\.kinetic_energy_kind == KineticEnergyKind::Microcanonical \{\n                math\.array_normalize\(&mut point\.velocity\);/            if self.kinetic_energy_kind != KineticEnergyKind::Microcanonical {\n                math.array_normalize(\&mut point.velocity);/', 'fresh momentum is normalised for the Euclidean kind and not for the microcanonical one (mutation campaign)'),
+ ('m78', 'C05', 'src/dynamics/transformed_hamiltonian.rs', r's/        if !math\.array_all_finite\(&self\.untransformed_gradient\) \{\n            return false;\n        \}\n        if !math\.array_all_finite\(&self\.untransformed_position\) \{\n            return false;\n        \}\n        true\n    \}\n\n    fn check_all/        if math.array_all_finite(\&self.untransformed_gradient) {\n            return false;\n        }\n        if !math.array_all_finite(\&self.untransformed_position) {\n            return false;\n        }\n        true\n    }\n\n    fn check_all/', 'check_untransformed accepts exactly the non-finite gradients (mutation campaign)'),
+ ('m79', 'C06', 'src/chain.rs', r's/            draw_count: 0,/            draw_count: 1,/', 'a new NUTS chain starts counting draws at 1 (mutation campaign)'),
  ('e01', 'C18', 'src/mclmc.rs', r's/&& self.draw_count == self.switch_draw/&& self.draw_count >= self.switch_draw/', 'EQUIVALENT on reachable states: must not be flagged'),
  ('e02', 'C08', 'src/math/cpu_math.rs', r's/\*mean \+= diff \* diff_scale;\n                \*var \+= diff \* diff;/*mean += diff * diff_scale;\n                *var += diff * (x - *mean);/', 'EQUIVALENT for the property (ratio of variances unchanged): must not be flagged'),
 ]
